@@ -101,11 +101,12 @@ theorem Inv.setEvents {s : State} (h : Inv s) (evs : List Event)
    h.podsNodup, h.vPodsNodup⟩
 
 theorem deliver_spec (s : State) (i : Nat) (h : Inv s) :
-    Inv (deliver Facts.good s i).1 ∧ (deliver Facts.good s i).1.pods = s.pods ∧
+    Inv (deliver Facts.good s i).1 ∧
+      ((deliver Facts.good s i).1.pods = s.pods ∧ (deliver Facts.good s i).1.admin = s.admin) ∧
       UnassignsWithin s (deliver Facts.good s i).1 (NoLive s.pods) := by
   unfold deliver
   split
-  · exact ⟨h, rfl, UnassignsWithin.refl s _⟩
+  · exact ⟨h, ⟨rfl, rfl⟩, UnassignsWithin.refl s _⟩
   · rename_i e he
     have hmem : e ∈ s.events := List.mem_of_getElem? he
     obtain ⟨e1, e2, e3⟩ := h.events e hmem
@@ -114,10 +115,10 @@ theorem deliver_spec (s : State) (i : Nat) (h : Inv s) :
     have sp := unbind_spec { s with events := s.events.eraseIdx i } e.pod h1 e1 e3
     dsimp only
     split
-    · exact ⟨sp.1, sp.2.1.pods, sp.2.2⟩
+    · exact ⟨sp.1, ⟨sp.2.1.pods, sp.2.1.admin⟩, sp.2.2⟩
     · split
-      · exact ⟨sp.1, sp.2.1.pods, sp.2.2⟩
-      · refine ⟨?_, sp.2.1.pods, ?_⟩
+      · exact ⟨sp.1, ⟨sp.2.1.pods, sp.2.1.admin⟩, sp.2.2⟩
+      · refine ⟨?_, ⟨sp.2.1.pods, sp.2.1.admin⟩, ?_⟩
         · apply sp.1.setEvents
           intro e' he'
           rcases List.mem_append.mp he' with h2 | h2
